@@ -272,6 +272,19 @@ func init() {
 		return p.tt.BoolC(was)
 	}
 
+	// ---- crypto/rand: every Read is a fresh symbolic byte string (natively: a scripted rand.Reader) ----
+	externals["crypto/rand.Read"] = func(p *Path, fr *Frame, fn *ssa.Function, a []Value) Value {
+		b := a[0].(BSlice)
+		if b.arr != nil {
+			name := p.fresh("rand")
+			p.inputs = append(p.inputs, InputRec{Name: name, Kind: "rand"})
+			p.arrCopy(b.arr, b.off, &ANode{kind: aUF, name: name}, p.tt.U64(0), b.n)
+			return Tuple{b.n, Iface{}}
+		}
+		p.fresh("rand")
+		return Tuple{p.tt.U64(0), Iface{}}
+	}
+
 	// ---- os / runtime / misc ----
 	externals["os.Getenv"] = func(p *Path, fr *Frame, fn *ssa.Function, a []Value) Value { return Str{} }
 	externals["os.LookupEnv"] = func(p *Path, fr *Frame, fn *ssa.Function, a []Value) Value {
